@@ -55,6 +55,8 @@ class HTTPReader:
         body = []
         while True:
             chunk_header = cls._read_until(stream, CR_LF)
+            if chunk_header is None:
+                raise DechunkError('Could not extract chunk size: unexpected end of data.')
             chunk_headers = chunk_header.split(b';')  # length + optional chunk-extensions (name=value pairs)
             chunk_len, _ = chunk_headers[0], chunk_headers[1:]  # we do nothing with chunk-extensions...
             if chunk_len is None:
@@ -65,10 +67,15 @@ class HTTPReader:
                 chunk_len = int(chunk_len.strip(), 16)
             except (ValueError, TypeError) as err:
                 raise DechunkError('Could not parse chunk size:') from err
+            if chunk_len < 0:
+                raise DechunkError(f'Invalid chunk size {chunk_len}')
 
             bytes_to_read = chunk_len
             while bytes_to_read:
                 chunk = stream.read(bytes_to_read)
+                if not chunk:
+                    # end of stream, reading on would loop forever
+                    raise DechunkError('Unexpected end of data inside a chunk.')
                 bytes_to_read -= len(chunk)
                 body.append(chunk)
 
